@@ -466,4 +466,124 @@ func runC07(c *Ctx) {
 		wg.Wait()
 		c.count("free_running_trials")
 	}
+	runC07Steady(c)
+}
+
+// ConcShared: everything that decoding shares between goroutines once the codecs are
+// long built: the map key/value scratch pools (both map forms), interning tables,
+// repeated-form slices, null codecs.
+type ConcShared struct {
+	M  map[string]int    `plenc:"1,proto"`
+	N  map[int]string    `plenc:"2,proto"`
+	S  string            `plenc:"3,intern"`
+	L  []string          `plenc:"4,proto"`
+	Q  map[string]string `plenc:"5"`
+	K  map[KeyS]Inner    `plenc:"6"`
+	KP map[KeyS]*Inner   `plenc:"7,proto"`
+	R  []ConcShared      `plenc:"8"`
+}
+
+func concValue(g, round int) ConcShared {
+	tag := fmt.Sprintf("g%d-", g)
+	v := ConcShared{M: map[string]int{}, N: map[int]string{}, Q: map[string]string{}, K: map[KeyS]Inner{}, KP: map[KeyS]*Inner{}, S: tag + "interned"}
+	for i := 0; i < 6; i++ {
+		k := fmt.Sprintf("%s%d-%d", tag, i, round%3)
+		v.M[k] = g*1000 + i
+		v.N[g*1000+i] = k
+		v.Q[k] = k + "v"
+		v.K[KeyS{X: g, Y: i, Z: k}] = Inner{A: g, B: k}
+		v.KP[KeyS{X: g, Y: i, Z: k}] = &Inner{A: i, B: tag}
+		v.L = append(v.L, k)
+	}
+	return v
+}
+
+// runC07Steady: free-running steady-state use. Every goroutine decodes and encodes its
+// own values on one shared instance and must get exactly what a goroutine running
+// alone gets (computed beforehand on an instance nobody else uses).
+func runC07Steady(c *Ctx) {
+	const G = 8
+	trials := scale(c, 6, 60)
+	rounds := scale(c, 400, 2000)
+	fails := 0
+	for trial := 0; trial < trials && fails < 3; trial++ {
+		var ref, p plenc.Plenc
+		ref.RegisterDefaultCodecs()
+		p.RegisterDefaultCodecs()
+		if trial%2 == 1 {
+			p.ProtoCompatibleArrays = true
+			ref.ProtoCompatibleArrays = true
+		}
+		type job struct {
+			data []byte
+			want ConcShared
+		}
+		jobs := make([][]job, G)
+		for g := 0; g < G; g++ {
+			for r := 0; r < 3; r++ {
+				v := concValue(g, r)
+				if r == 2 {
+					v.R = []ConcShared{concValue(g, 0), concValue(g, 1)}
+				}
+				data, err := ref.Marshal(nil, &v)
+				if err != nil {
+					c.native = append(c.native, NativeViolation{Case: "steady-state concurrent use", What: "Marshal failed: " + err.Error(), Class: "concurrent-use-wrong"})
+					return
+				}
+				var want ConcShared
+				if err := ref.Unmarshal(data, &want); err != nil {
+					c.native = append(c.native, NativeViolation{Case: "steady-state concurrent use", What: "Unmarshal failed: " + err.Error(), Class: "concurrent-use-wrong"})
+					return
+				}
+				jobs[g] = append(jobs[g], job{data, want})
+			}
+		}
+		// the codecs are built before the goroutines start: this phase is about use, not first use
+		var warm ConcShared
+		p.Unmarshal(jobs[0][0].data, &warm)
+		var wg sync.WaitGroup
+		var mu sync.Mutex
+		for g := 0; g < G; g++ {
+			wg.Add(1)
+			go func(g int) {
+				defer wg.Done()
+				defer func() {
+					if r := recover(); r != nil {
+						mu.Lock()
+						fails++
+						c.native = append(c.native, NativeViolation{Case: "steady-state concurrent use", What: fmt.Sprint("panic: ", r), Class: "concurrent-use-panic"})
+						mu.Unlock()
+					}
+				}()
+				for r := 0; r < rounds; r++ {
+					j := jobs[g][r%len(jobs[g])]
+					var got ConcShared
+					err := p.Unmarshal(j.data, &got)
+					var back []byte
+					var err2 error
+					if err == nil && r%8 == 0 {
+						back, err2 = p.Marshal(nil, &got)
+						if err2 == nil {
+							var again ConcShared
+							if e := p.Unmarshal(back, &again); e != nil || !reflect.DeepEqual(again, j.want) {
+								err2 = fmt.Errorf("re-encoded value decodes differently (%v)", e)
+							}
+						}
+					}
+					if err != nil || err2 != nil || !reflect.DeepEqual(got, j.want) {
+						mu.Lock()
+						if fails < 3 {
+							c.native = append(c.native, NativeViolation{Case: fmt.Sprintf("steady-state concurrent use: goroutine %d of %d round %d data=%x", g, G, r, j.data), Class: "concurrent-use-wrong",
+								What: trunc(fmt.Sprintf("result differs from the same call run alone: err=%v %v got=%+v want=%+v", err, err2, got, j.want), 900)})
+						}
+						fails++
+						mu.Unlock()
+						return
+					}
+				}
+			}(g)
+		}
+		wg.Wait()
+		c.count("steady_state_trials")
+	}
 }
